@@ -64,6 +64,15 @@ CHECKS["C14"] = dict(
          "cutting everything after the traversed region changes nothing (the tail is arbitrary => any appended bytes).",
     design="4/C14", technique="symbolic execution of three parses of the same symbolic buffer, metamorphic relation decided by z3")
 
+CHECKS["C12"] = dict(
+    text="Bounded symbolic model checking, differential on REJECTED inputs: for catalogue declarations (nesting <=3) x {generic, "
+         "generated} x every input length x symbolic offset, whenever both bisturi and the reference reject, z3 decides that the "
+         "exception is a PacketError with the unpacking flag, e.packet, an innermost entry naming the failing field (or the generated "
+         "run of fixed fields containing it) with the offset where it begins, one entry per enclosing Ref/Sequence field, a working "
+         "str(e), and silent=True => None. Pack side: unbounded out-of-range ints, wrong types, colliding at-positions, failing "
+         "Auto computations. Non-bytes input => ValueError.",
+    design="4/C12", technique="symbolic execution of failing unpack/pack paths vs reference reject-path oracle, CrossHair/z3")
+
 NA_REASON = "check not built yet in this round (planned: DESIGN.md section 4); no claim is made"
 
 
